@@ -109,7 +109,7 @@ def _(c):
     if not c.symbolic:
         return
     from beyond.propagators.base import Propagator
-    bound_to_self = c.choice("already_bound", [False, True])
+    bound_to_self = c.choice("already_bound", [False, True, "other"])
     log = []
 
     class P(Propagator):
@@ -135,8 +135,11 @@ def _(c):
     p = P()
     w = c.world()
     o = w.obj(f"{ORB}:Orbit", _data={"propagator": p})
-    if bound_to_self:
+    if bound_to_self is True:
         p._o = o
+    elif bound_to_self == "other":
+        p._o = types.SimpleNamespace(name="another orbit bound earlier")
+        bound_to_self = False
     res = o.propagate("DATE")
     c.ensure("delegates", bool(res == "STATE" and log[-1] == ("propagate", "DATE")))
     c.ensure("binds_iff_needed", bool(([x for x in log if x[0] == "bind"] == ([] if bound_to_self else [("bind", o)]))))
@@ -361,5 +364,18 @@ def _(c):
                             [(np.asarray(p, dtype=float).tobytes(), p.event.info if p.event else None)
                              for p in obj.iter(start=d0, stop=d0 + timedelta(seconds=3000), step=timedelta(seconds=600), **({} if hill else {"listeners": [l]}))])
     c.ensure("same_as_fresh", probe(src, lis) == probe(fresh, NodeListener()))
+    if prop not in ("ephem",):
+        # the propagator object used directly, several times, and shared with a second orbit
+        p = src.propagator
+        p.orbit = src
+        d1, d2 = d0 + timedelta(seconds=1500.5), d0 + timedelta(seconds=-250.0)
+        a = np.asarray(p.propagate(d1), dtype=float).tobytes()
+        p.propagate(d2)
+        c.ensure("propagator_reuse", a == np.asarray(p.propagate(d1), dtype=float).tobytes())
+        other, _ = _make(prop)
+        other[0] = float(other[0]) * (1 + 1e-3)
+        other.propagator = p
+        other.propagate(d1)
+        c.ensure("shared_propagator_rebinds", np.asarray(src.propagate(d1), dtype=float).tobytes() == a)
     if before is not None:
         c.ensure("initial_orbit_untouched", bool(np.array_equal(np.asarray(src, dtype=float), before) and src.date == d0))
